@@ -185,6 +185,8 @@ pub struct World {
     pub nested_quiet: Cell<bool>,
     /// objects with an id below this existed when the (first) injected panic was caught: only they may be affected by it
     pub fault_obj_mark: Cell<u32>,
+    /// the running collection was requested by the interpreter through collect_cycles()
+    pub coll_explicit: Cell<bool>,
 }
 
 impl World {
@@ -246,6 +248,7 @@ impl World {
             yield_every: Cell::new(0),
             nested_quiet: Cell::new(false),
             fault_obj_mark: Cell::new(u32::MAX),
+            coll_explicit: Cell::new(false),
         }
     }
 }
